@@ -290,16 +290,61 @@ def mutators(ctx: Ctx):
     c03.api_cases(ctx, cases, what='C17 codon choice of the mutators', control=False, chunk=3)
 
 
+def both_strands_case(d):
+    from . import c14
+    from .. import merge
+    m = c14.mirror(d)
+    if m is None:
+        return d, None, None
+    d2 = json.loads(json.dumps(d))
+    d2['opts'] = dict(d['opts'], revcomp=True)
+    d2['extra_contigs'] = {}
+    both = merge.merge_designs(d2, m, same_contig=False)
+    return d, m, sge.run_design(both)
+
+
+def both_strands(ctx: Ctx):
+    """One run holding a gene on the plus strand of one contig and its mirror image on the minus strand of another: the codon table is built
+    per strand, so both libraries must coincide (mutator, oligonucleotide with --revcomp-minus-strand, ref_aa, alt_aa, mut_type, PAM annotation)."""
+    from . import c14
+    designs = []
+    for i in range(ctx.n(14, 140)):
+        d = c14.make_design(ctx.rng, 3 * i)          # 3 * i: never the background branch of the generator
+        if d.get('gtf') and not d.get('bg'):
+            designs.append(d)
+    for d, m, r in pool_map(both_strands_case, designs, chunksize=2):
+        if m is None:
+            ctx.count('both_strands_unmirrorable')
+            continue
+        ctx.evaluations += 1
+        ctx.count('both_strands_runs')
+        if r['exit'] != 0:
+            ctx.violation('spec_violation', f"a gene and its mirror image in one run: refused ({r['exc']} {r['exc_msg'][:80]})",
+                          {'surface': 'file', 'kind': 'both_strands', 'design': d})
+            continue
+        for t, tm in zip(d['targetons'], m['targetons']):
+            a = c14.library({'contig': d['contig'], 'strand': d['strand']}, r, t)
+            b = c14.library({'contig': 'chr2', 'strand': m['strand']}, r, dict(tm, contig='chr2'))
+            if a:
+                ctx.nontriv(('both_strands', common.sha(d), t['ref_start']))
+            if a != b:
+                only_a, only_b = list((a - b).elements())[:3], list((b - a).elements())[:3]
+                ctx.violation('spec_violation', f"a gene on {d['strand']} and its mirror image in one run: targeton {t['ref_start']}-{t['ref_end']}: rows only on the "
+                              f"first contig {[(k[0], k[1][:24], k[2:5]) for k in only_a]}; only on the mirrored contig {[(k[0], k[1][:24], k[2:5]) for k in only_b]}",
+                              {'surface': 'file', 'kind': 'both_strands', 'design': d})
+
+
 def run(ctx: Ctx):
     tables(ctx)
     loader(ctx)
     mutators(ctx)
     files(ctx)
+    both_strands(ctx)
     return {'rule': 'S-api: the default table on both strands plus random 64-codon tables (random ranks and row order, sorted by codon, tied ranks, missing codons, '
                     'duplicate codon) through the real CodonTable: translate x64, top/second codon per amino acid (incl. an absent one), synonymous codons x64, '
                     'get_top_codons with excludes; compared with the Coq model and (for tables inside the spec) an independent oracle and a row shuffle; '
                     'malformed rows through the real loader; the codon chosen by ala/stop/aa/snvre for each of the 64 reference codons on both strands under the default and '
-                    'random tables (exons of eight codons, real get_cds_seq + MutatorCollection.get_variants) against the codon oracle and the Coq model; S-file: runs with a custom table in two row orders (byte-identical outputs) and malformed tables (refused). '
+                    'random tables (exons of eight codons, real get_cds_seq + MutatorCollection.get_variants) against the codon oracle and the Coq model; S-file: a gene and its mirror image on two contigs and strands in one run (libraries must coincide); runs with a custom table in two row orders (byte-identical outputs) and malformed tables (refused). '
                     'Non-trivial = a table inside the spec / a malformed row / a design using codon-level mutators.'}
 
 
@@ -324,6 +369,18 @@ def replay(ctx: Ctx, path: str) -> int:
         bad = out != spec_lookups(rows, c['rc'])
         if 'shuffled' in c:
             bad = bad or impl_lookups(([tuple(r) for r in c['shuffled']], c['rc'])) != out
+    elif c.get('kind') == 'both_strands':
+        sub = Ctx('C17', ctx.tier, ctx.seed, None)
+        sub.known, sub.matchers = [], {}
+        from . import c14
+        d, m, r = both_strands_case(c['design'])
+        if m is not None:
+            if r['exit'] != 0:
+                bad = True
+            else:
+                for t, tm in zip(d['targetons'], m['targetons']):
+                    if c14.library({'contig': d['contig'], 'strand': d['strand']}, r, t) != c14.library({'contig': 'chr2', 'strand': m['strand']}, r, dict(tm, contig='chr2')):
+                        bad = True
     elif c.get('surface') == 'loader':
         r = loader_case(c['fields'])
         bad = valid_row_spec(c['fields']) != (r[0] == 'ok')
